@@ -1605,7 +1605,10 @@ class Interp:
                         th = {'int': T.SeqI, 'seq': T.SeqS, 'obj': T.SeqO, None: T.SeqI}.get(hint, T.SeqI)
                         s = VSeq(th.Empty, c.kind, th)
                     else:
-                        raise Unsupported('havoc of heterogeneous list')
+                        # a list of mixed values handed to an opaque callee: its content is unknown from here on;
+                        # any later use of the list is reported as unsupported (never silently trusted)
+                        self.st.heap[ref.loc] = HList(VSeq(self.fresh('hv', T.SeqO.sort), c.kind, T.SeqO), c.kind)
+                        return
                 cont = s
             new = cont.with_term(self.fresh('hv', cont.th.sort))
             self.st.heap[ref.loc] = HList(new, c.kind)
